@@ -18,10 +18,17 @@ def showB : BRes → String
   | .unmodelled => "unmodelled"
   | .outOfFuel => "out-of-fuel"
 
+def showSpec : Spec.Res → String
+  | .res out st => "out=" ++ toHex out ++ " st=" ++ toString st
+  | .outside => "outside"
+  | .outOfFuel => "out-of-fuel"
+
 /-- ops (byte strings in hex, `-` = empty):
     `fmt <0|1> <format> <arg>*`  → model of `formatInto(format, args)` (1 = nil args slice);
     `printf <word>*`             → model of the `printf` builtin (words after the command name);
-    `echo <word>*`               → model of the `echo` builtin. -/
+    `echo <word>*`               → model of the `echo` builtin;
+    `specprintf`/`spececho <word>*` → the specification of bash (compared with the implementation);
+    `bashprintf`/`bashecho <word>*` → the same specification (compared with the real bash). -/
 def handle (args : List String) : String :=
   match args with
   | "fmt" :: nil :: f :: as =>
@@ -36,6 +43,16 @@ def handle (args : List String) : String :=
     match ws.mapM ofHex with
     | some ws => showB (echoBuiltin ws)
     | none => "bad-op"
+  | op :: ws =>
+    if op = "specprintf" ∨ op = "bashprintf" then
+      match ws.mapM ofHex with
+      | some ws => showSpec (Spec.printf ws)
+      | none => "bad-op"
+    else if op = "spececho" ∨ op = "bashecho" then
+      match ws.mapM ofHex with
+      | some ws => showSpec (Spec.echo ws)
+      | none => "bad-op"
+    else "bad-op"
   | _ => "bad-op"
 
 end ShVerif.Drv.C24
